@@ -351,7 +351,7 @@ fn observe(ctx: &Ctx, rec: &mut Rec, prop: &str, modes: u32, r: &Reg) -> Option<
     let d = match affine_of(c, &el) {
         Ok(d) => d,
         Err(why) => {
-            if modes & (DENOTE | ENC) != 0 {
+            if modes & (DENOTE | ENC | RT) != 0 {
                 rec.violation(format!("{prop}:lifecycle:structurally-invalid"), format!("{} after [{hist}] is structurally invalid: {why}", r.o.kind()), json!({"history": hist, "object": el_json(&el)}));
             }
             return None;
